@@ -449,3 +449,100 @@ Theorem C12_gen_policy_lifecycle : forall s r sup,
   (fst (gen_policy_check s r (r_stored r) sup) = TPass -> sup = expected_token s r).
 Proof. exact gen_policy_lifecycle. Qed.
 Print Assumptions C12_gen_policy_lifecycle.
+
+(* ---- round 5: more of the code regenerated (util.strings_differ, the session object's own token methods,
+   the data flow set_default_csrf_options -> DefaultCSRFOptions -> the registered options object) *)
+Theorem C12_gen_strings_differ_is_model : forall a b, gen_strings_differ a b = strings_differ a b.
+Proof. exact gen_strings_differ_is_model. Qed.
+Print Assumptions C12_gen_strings_differ_is_model.
+
+Theorem C12_gen_strings_differ_spec : forall a b, gen_strings_differ a b = false <-> a = b.
+Proof. exact gen_strings_differ_spec. Qed.
+Print Assumptions C12_gen_strings_differ_spec.
+
+Theorem C12_gen_sess_is_model : forall r st,
+  gen_sess_new r st = (r_fresh r, Some (r_fresh r)) /\
+  gen_sess_get r st = (session_token st (r_fresh r), session_store st (r_fresh r)).
+Proof. exact gen_sess_is_model. Qed.
+Print Assumptions C12_gen_sess_is_model.
+
+Theorem C12_gen_directive_options_is_model : forall d, gen_directive_options d = options_of_defaults d.
+Proof. exact gen_directive_options_is_model. Qed.
+Print Assumptions C12_gen_directive_options_is_model.
+
+Theorem C12_gen_registered_options_from_directive : forall c o,
+  registered_options c = Some o -> exists d, c_defaults c = Some d /\ o = gen_directive_options d.
+Proof. exact gen_registered_options_from_directive. Qed.
+Print Assumptions C12_gen_registered_options_from_directive.
+
+Theorem C12_gen_directive_options_fields : forall d,
+  o_require (gen_directive_options d) = dflt (d_require d) true /\
+  o_token (gen_directive_options d) = dflt (d_token d) (Some s_token) /\
+  o_header (gen_directive_options d) = dflt (d_header d) (Some s_header) /\
+  o_safe (gen_directive_options d) = dflt (d_safe d) s_safe /\
+  o_check_origin (gen_directive_options d) = dflt (d_check_origin d) true /\
+  o_allow_no_origin (gen_directive_options d) = dflt (d_allow_no_origin d) false /\
+  o_callback (gen_directive_options d) = d_callback d.
+Proof. exact gen_directive_options_fields. Qed.
+Print Assumptions C12_gen_directive_options_fields.
+
+(* ---- round 5: the public token API (pyramid.csrf.get_csrf_token / new_csrf_token) called by the view body *)
+Theorem C12_gen_api_is_model : forall s r st,
+  gen_api_get s r st = (or_empty (store_after_get s st (r_fresh r)), store_after_get s st (r_fresh r)) /\
+  gen_api_new s r st = (r_fresh r, Some (r_fresh r)).
+Proof. exact gen_api_is_model. Qed.
+Print Assumptions C12_gen_api_is_model.
+
+Theorem C12_gen_api_body_store : forall s r st,
+  snd (gen_api_get s r st) = body_store s AGet st (r_fresh r) /\
+  snd (gen_api_new s r st) = body_store s ANew st (r_fresh r).
+Proof. exact gen_api_body_store. Qed.
+Print Assumptions C12_gen_api_body_store.
+
+Theorem C12_body_api_never_changes_verdict : forall pr c st a r,
+  fst (client_step_a pr c st (a, r)) = view_outcome_p pr c (with_client_state st r).
+Proof. exact client_step_a_outcome. Qed.
+Print Assumptions C12_body_api_never_changes_verdict.
+
+Theorem C12_rejected_body_has_no_effect : forall pr c st a r,
+  fst (client_step_a pr c st (a, r)) <> Ran -> snd (client_step_a pr c st (a, r)) = snd (client_step pr c st r).
+Proof. exact rejected_body_has_no_effect. Qed.
+Print Assumptions C12_rejected_body_has_no_effect.
+
+Theorem C12_rotation_installs_fresh : forall pr c st r,
+  fst (client_step_a pr c st (ANew, r)) = Ran -> snd (client_step_a pr c st (ANew, r)) = Some (r_fresh r).
+Proof. exact rotation_installs_fresh. Qed.
+Print Assumptions C12_rotation_installs_fresh.
+
+Theorem C12_body_get_state : forall pr c st r,
+  fst (client_step_a pr c st (AGet, r)) = Ran -> r_fresh r <> [] ->
+  snd (client_step_a pr c st (AGet, r)) = store_after_get (c_storage c) st (r_fresh r).
+Proof. exact body_get_state. Qed.
+Print Assumptions C12_body_get_state.
+
+Theorem C12_only_held_token_passes : forall pr c t r,
+  t <> [] -> checks_apply c (with_client_state (Some t) r) = true ->
+  view_outcome_p pr c (with_client_state (Some t) r) = Ran ->
+  supplied_token (o_token (effective c)) (o_header (effective c)) (with_client_state (Some t) r) = t.
+Proof. exact only_held_token_passes. Qed.
+Print Assumptions C12_only_held_token_passes.
+
+Theorem C12_rotated_old_token_refused : forall pr c st r r2,
+  fst (client_step_a pr c st (ANew, r)) = Ran -> r_fresh r <> [] ->
+  checks_apply c (with_client_state (Some (r_fresh r)) r2) = true ->
+  supplied_token (o_token (effective c)) (o_header (effective c)) (with_client_state (Some (r_fresh r)) r2) <> r_fresh r ->
+  fst (client_step_a pr c (snd (client_step_a pr c st (ANew, r))) (ANone, r2)) <> Ran.
+Proof. exact rotated_old_token_refused. Qed.
+Print Assumptions C12_rotated_old_token_refused.
+
+Theorem C12_view_history_independent_with_api : forall pr c k steps s,
+  outcomes_of_a k steps (fst (run_clients_a pr c s steps)) = fst (run_client_a pr c (st_get k s) (requests_of_a k steps)) /\
+  st_get k (snd (run_clients_a pr c s steps)) = snd (run_client_a pr c (st_get k s) (requests_of_a k steps)).
+Proof. exact view_history_independent_a. Qed.
+Print Assumptions C12_view_history_independent_with_api.
+
+Theorem C12_rotation_example :
+  run_client_a repaired ex_cfg (Some [97; 49; 98; 50; 99; 51; 100; 52]) [(ANew, ex_req_good); (ANone, ex_req_good); (ANone, ex_req_echo)] =
+    ([Ran; BadToken; Ran], Some (r_fresh ex_req_good)) /\ r_fresh ex_req_good <> [].
+Proof. exact ex_rotation. Qed.
+Print Assumptions C12_rotation_example.
